@@ -324,7 +324,11 @@ func FieldOptions(t *rapid.T, f *ir.File, c *ir.Config, o KOpts) {
 			if oc.Embed || isExcluded(oc) {
 				continue
 			}
-			if rapid.IntRange(0, p).Draw(t, fmt.Sprintf("%s%d", label, i)) == 0 {
+			pp := p
+			if label == "comp" && Snake(oc.Field.Name) == "active" {
+				pp = 1 // a real field that looks like the placeholder of an empty message (computed bool "active")
+			}
+			if rapid.IntRange(0, pp).Draw(t, fmt.Sprintf("%s%d", label, i)) == 0 {
 				k := key(oc, label+"key")
 				if !ir.Has(*dst, k) {
 					*dst = append(*dst, k)
@@ -368,6 +372,11 @@ func FieldOptions(t *rapid.T, f *ir.File, c *ir.Config, o KOpts) {
 			n := rapid.SampledFrom(listLens).Draw(t, "nval")
 			var l []string
 			for j := 0; j < n; j++ {
+				if rapid.IntRange(0, 4).Draw(t, "vargs") == 0 {
+					// arguments with dots, quotes and slashes
+					l = append(l, SupportPath+"."+rapid.SampledFrom([]string{`VS("a.b")`, `VS("v1.example.com/x y")`, `VF(0.5)`, `VF(1.25)`}).Draw(t, "varg"))
+					continue
+				}
 				l = append(l, fmt.Sprintf("%s.V(%d)", SupportPath, rapid.IntRange(1, 9+n).Draw(t, "vid")))
 			}
 			c.Validators[key(oc, "valkey")] = l
@@ -376,6 +385,10 @@ func FieldOptions(t *rapid.T, f *ir.File, c *ir.Config, o KOpts) {
 			n := rapid.SampledFrom(listLens).Draw(t, "npm")
 			var l []string
 			for j := 0; j < n; j++ {
+				if rapid.IntRange(0, 5).Draw(t, "pmargs") == 0 {
+					l = append(l, SupportPath+"."+rapid.SampledFrom([]string{`PMS("a.b")`, `PMS("x/y.z")`}).Draw(t, "pmarg"))
+					continue
+				}
 				if rapid.IntRange(0, 3).Draw(t, "pmrr") == 0 {
 					l = append(l, "github.com/hashicorp/terraform-plugin-framework/tfsdk.RequiresReplace()")
 				} else {
